@@ -20,7 +20,31 @@ SPEC = dict(
              instances=[I('kf_vcard_request', known_finding='vcard_request_swallowed'), I('kf_roster_get', known_finding='roster_get_swallowed'),
                         I('kf_roster_ack_to', known_finding='roster_ack_to_missing')]),
         dict(name='client', harness='h_client.cpp', tus=CLI_TUS, models=MODELS + ['c08_client.c'], shadow_task=True, loop_bounds={r'^_ZNSt6ranges14__copy_or_move': 110},
-             instances=[I('cli_' + n) for n in ('inject_req', 'inject_resp', 'inject_e2ee_req', 'inject_e2ee_resp', 'inject_noiq', 'stream_req', 'stream_resp', 'fallback_req', 'fallback_resp')]),
+             instances=[I('cli_' + n) for n in ('inject_req', 'inject_resp', 'inject_e2ee_req', 'inject_e2ee_resp', 'inject_noiq', 'stream_req', 'stream_resp', 'fallback_req')]),
     ],
-    bounds=[], assumptions=[], outside=[],
+    bounds=[
+        'one incoming element per run; its STRUCTURE is case-split inside each instance (one switch branch per combination, all decided by the solver in one query): IQ type keyword in {get, set, result, error, empty (= absent), garbage = 1..6 arbitrary UTF-16 units spelling none of the four}; payload shapes per harness (<= 8) out of: no child, foreign <ping xmlns=urn:xmpp:ping/>, the payloads of the five managers (query@jabber:iq:version, time@urn:xmpp:time, query@disco#info, query@disco#items, vCard@vcard-temp, query@jabber:iq:roster), <query/> without namespace, right namespace under a wrong tag, foreign element FOLLOWED by the payload (2 children)',
+        'symbolic per branch: id 0..2 and from 0..3 arbitrary UTF-16 units (present, possibly empty), own bare JID 1..2 units without "/" (vCard/roster managers), e2ee metadata absent / present',
+        'requests (get/set) are run against all shapes; responses and invalid types against 3 shapes (own payload, no child, foreign) - they never reach payload-specific code that could send',
+        'extension chain (group client): 0, 1 or 2 mock extensions, each with independent nondeterministic verdicts for handleStanza(element, e2ee) and handleStanza(element) (all 16 verdict combinations symbolic in one branch)',
+        'payload elements carry no grandchildren (roster items: C12; vCard fields / disco items / data forms: C01/C02); disco query node attribute in {absent, below the capabilities node, unknown}',
+    ],
+    assumptions=[
+        'an absent attribute and an empty attribute are the same for the code under check (QDomElement::attribute(name) returns the empty default: Qt contract); "from absent" is therefore run as "from empty", except in cli_fallback_req where the attribute is really absent',
+        'a reply without "to" counts as addressed to the requester iff the request had no/empty from or from == own bare JID (RFC 6120 8.1.1.1 / 10.3.3: a stanza without to is handled by the server on behalf of the own account)',
+        'groups iqh/mgr: QXmppClient is raw storage; QXmppClient::reply / sendPacket record type(), id(), to() of the stanza (read through the real getters); configuration().jidBare() is a harness-chosen string; the manager objects are raw storage with live private data and m_client; signals end in QMetaObject::activate (ghost log); QXmppDiscoveryManager::capabilities() is cut to an empty disco#info IQ (feature list: C20); QDateTime/QTimeZone are opaque words, date <-> text conversions of QXmppUtils are cut',
+        'group client: QXmppClient / QXmppClientPrivate / QXmppOutgoingClient / QXmppOutgoingClientPrivate are raw storage with only d pointers, extension list, stream pointer, encryptionExtension == nullptr, stream-ack counters and an EMPTY table of pending own requests alive; QXmppPacket(const QXmppNonza&) runs the REAL toXml into the writer tree model and StreamAckManager::send / sendPacketCompat log that tree (socket and stream-management accounting: C09); signal QXmppOutgoingClient::elementReceived is a direct call of QXmppClient::_q_elementReceived (connection made in the QXmppClient constructor); QXmppElement(const QDomElement&) (generic payload copy handed to iqReceived) is cut to an empty element',
+        'connected client = session established: with QXmppConfiguration::TLSRequired the link is encrypted (on a not yet encrypted link the client deliberately sends nothing at all: C04); streamSecurityMode() and QSslSocket::isEncrypted() are harness-controlled under that assumption',
+        'a mock extension obeys the contract that the iqh/mgr groups prove for the real managers: handleStanza()==true for a get/set => it sent exactly one reply (ghost event); false => nothing sent; never a reply to result/error/invalid types',
+        'QXmppTask/QXmppPromise are the assume-guarantee shadow (models/shadow/task_shadow.h, contract established by C13)',
+    ],
+    outside=[
+        'the other ~25 bundled managers; the end-to-end-encryption send path (QXmppClient::sendSensitive with an encryption extension, encrypted IQ decryption before injectIq)',
+        'IQs that arrive while own requests are pending (OutgoingIqManager matching by id/from: C07); presence/message stanzas; elements outside jabber:client (rejected as stream errors)',
+        'the QXmppTask-returning handler form documented in QXmppIqHandling.h: Private::processHandleIqResult(..., QXmppTask<T>) does not compile for any T (its continuation passes an lvalue to overloads that only take rvalues / forwarding references constrained to non-reference types), so it has no instantiation to check',
+        'QXmppRosterManager with <item/> children (item bookkeeping: C12) - the acknowledgement is sent before the items are looked at; content of replies beyond type/id/to (and the error condition of the fallback)',
+        'what the serialised reply looks like for the managers\' payload classes (QXmppVersionIq/QXmppEntityTimeIq/QXmppDiscoveryIq::toXml): groups iqh/mgr read the envelope through getters; the wire form is checked for the client\'s own error replies (group client)',
+        'extension sets beyond two extensions: by the chain invariant proved here (an extension is consulted only if all earlier ones declined, at most once per overload, nothing is consulted after the owner) longer chains behave alike, but they are not run',
+    ],
+
 )
